@@ -125,6 +125,33 @@ pub fn mk_frame<T: Pixel>(w: usize, h: usize, ss: (u8, u8), pad: usize, mut f: i
     fr
 }
 
+/// Letterboxed layout of `px`: rows of `w` pixels, two all-black rows on top, one in the middle and none at
+/// the bottom (asymmetric bars). Returns the pixels, for each the index into `px` (usize::MAX for a bar pixel), and the height.
+pub fn letterbox(px: &[[f32; 3]], w: usize, black: [f32; 3]) -> (Vec<[f32; 3]>, Vec<usize>, usize) {
+    let rows = px.len() / w;
+    let mut v = Vec::with_capacity((rows + 3) * w);
+    let mut idx = Vec::with_capacity((rows + 3) * w);
+    let bar = |v: &mut Vec<[f32; 3]>, idx: &mut Vec<usize>| {
+        for _ in 0..w {
+            v.push(black);
+            idx.push(usize::MAX);
+        }
+    };
+    bar(&mut v, &mut idx);
+    bar(&mut v, &mut idx);
+    for r in 0..rows {
+        if r == rows / 2 && rows > 1 {
+            bar(&mut v, &mut idx);
+        }
+        for x in 0..w {
+            v.push(px[r * w + x]);
+            idx.push(r * w + x);
+        }
+    }
+    let h = v.len() / w;
+    (v, idx, h)
+}
+
 pub fn px64(p: [f32; 3]) -> [f64; 3] {
     [p[0] as f64, p[1] as f64, p[2] as f64]
 }
@@ -154,14 +181,25 @@ pub fn cp_by_name(s: &str) -> Option<CP> {
     ALL_CP.iter().copied().chain([CP::Unspecified]).find(|m| format!("{m:?}") == s)
 }
 
+/// the shape given to an n-pixel batch (a conversion works pixel by pixel, so any w x h = n will do)
+pub fn batch_shape(n: usize) -> (usize, usize) {
+    if n >= 32 && n % 16 == 0 {
+        (16, n / 16)
+    } else if n >= 14 && n % 7 == 0 {
+        (n / 7, 7)
+    } else {
+        (n, 1)
+    }
+}
+
 pub fn lin_of(t: TC, v: Vec<[f32; 3]>) -> Result<Vec<[f32; 3]>, String> {
-    let n = v.len();
-    let rgb = Rgb::new(v, n, 1, t, CP::BT709).map_err(|e| format!("Rgb::new: {e:?}"))?;
+    let (n, h) = batch_shape(v.len());
+    let rgb = Rgb::new(v, n, h, t, CP::BT709).map_err(|e| format!("Rgb::new: {e:?}"))?;
     LinearRgb::try_from(rgb).map(LinearRgb::into_data).map_err(|e| format!("{e:?}"))
 }
 pub fn gam_of(t: TC, v: Vec<[f32; 3]>) -> Result<Vec<[f32; 3]>, String> {
-    let n = v.len();
-    let l = LinearRgb::new(v, n, 1).map_err(|e| format!("LinearRgb::new: {e:?}"))?;
+    let (n, h) = batch_shape(v.len());
+    let l = LinearRgb::new(v, n, h).map_err(|e| format!("LinearRgb::new: {e:?}"))?;
     Rgb::try_from((l, t, CP::BT709)).map(Rgb::into_data).map_err(|e| format!("{e:?}"))
 }
 
